@@ -28,6 +28,38 @@ def sig_fake_alt_negative(desc, events, inv):
     return True
 
 
+def _shift(ev):
+    """Re-times the second train's plan so that it starts together with the first one (in a final snapshot):
+    opposing trains then run through each other, following trains enter every link simultaneously."""
+    for i, e in enumerate(ev):
+        if e.get("ev") == "Snap" and e["kind"] == "final" and len(e["plan"]) >= 2:
+            a0 = [n[2] for n in e["plan"][0] if n[0] == 1]
+            a1 = [n[2] for n in e["plan"][1] if n[0] == 1]
+            if a0 and a1 and a1[0] != a0[0]:
+                d = a1[0] - a0[0]
+                for n in e["plan"][1]:
+                    if n[2] < 2 ** 30:
+                        n[2] -= d
+                return ev, i, ["OppExclusive", "Headway", "Fifo", "LockoutExclusive"]
+    return None
+
+
+def _drop(ev):
+    for i, e in enumerate(ev):
+        if e.get("ev") == "Result" and e["ok"] and len(e["plan"]) >= 2:
+            e["plan"].pop()
+            return ev, i, ["Complete", "RouteValid", "ResultIsFinalPlan"]
+    return None
+
+
+def _backlink(ev):
+    for i, e in enumerate(ev):
+        if e.get("ev") == "Net" and len(e["nodes"]) > 6:
+            e["nodes"][4][5] = 1          # prev of node 4 no longer points at its predecessor
+            return ev, i, ["Linked", "PrimaryEq"]
+    return None
+
+
 def vacuity(r):
     s = r["stats"]
     if s.get("snaps", 0) == 0:
@@ -47,12 +79,13 @@ GROUP = dict(
     model_spec="MCDispatch.tla", trace_spec="DispatchTrace.tla", trace_cfg="DispatchTrace.cfg",
     models={
         "quick": [_M("MCDispatch_n1_2.cfg"), _M("MCDispatch_n1_3.cfg"), _M("MCDispatch_n0_3.cfg", may_be_zero=("Reroute",)),
-                  _M("MCDispatch_n2_2.cfg"),
+                  _M("MCDispatch_n2_2.cfg"), _M("MCDispatch_live.cfg", coverage=False),
                   dict(cfg="MCDispatchScen_3.cfg", spec="MCDispatchScen.tla", emit=True, max_emit=110)],
         "thorough": [_M("MCDispatch_n1_2.cfg"), _M("MCDispatch_n1_3.cfg"), _M("MCDispatch_n1_3tie.cfg"),
                      _M("MCDispatch_n1_3same.cfg"), _M("MCDispatch_n1_eew.cfg"), _M("MCDispatch_n0_3.cfg", may_be_zero=("Reroute",)),
                      _M("MCDispatch_n2_2.cfg"), _M("MCDispatch_n2_3.cfg", workers=16, timeout=1800),
                      _M("MCDispatch_n1_4.cfg", workers=16, timeout=1800),
+                     _M("MCDispatch_live.cfg", coverage=False), _M("MCDispatch_live3.cfg", coverage=False, timeout=1800),
                      dict(cfg="MCDispatchScen_4.cfg", spec="MCDispatchScen.tla", emit=True, max_emit=1500, workers=8)],
     },
     gen_n={"quick": 60, "thorough": 1500},
@@ -85,6 +118,15 @@ GROUP = dict(
                                  "times compared at 1 ms resolution with a tolerance of 2 ms"]),
     },
     sigs={"fake_alt_negative": sig_fake_alt_negative},
+    fault_models=[dict(cfg="MCDispatch_fault_flip.cfg", expect=["OppExclusive"]),
+                  dict(cfg="MCDispatch_fault_lock.cfg", expect=["LockoutExclusive"]),
+                  dict(cfg="MCDispatch_fault_prevce.cfg", expect=["Fifo", "Headway"]),
+                  dict(cfg="MCDispatch_fault_lead.cfg", expect=["Fifo", "Headway"]),
+                  dict(cfg="MCDispatch_fault_quiet.cfg", expect=["Fifo", "Headway", "OppExclusive"]),
+                  dict(cfg="MCDispatch_fault_spacing.cfg", expect=["Headway"])],
+    selftest_cases=25,
+    corrupt={"shift_plan_earlier": lambda ev: _shift(ev), "drop_train": lambda ev: _drop(ev),
+             "break_backlink": lambda ev: _backlink(ev)},
     vacuity=vacuity,
 )
 
